@@ -23,10 +23,12 @@ def extract(shadow):
              '{ size_t cv_n = ::strlen( progname) + 1; mpArgV[ 0] = new char[ cv_n]; }', 1),
         Rule('R-NEWSIZE-2', r'argv\[ argc\] = new char\[ next_arg.length\(\) \+ 1\];',
              '{ size_t cv_n = next_arg.length() + 1; argv[ argc] = new char[ cv_n]; }', 1),
+        # R-RFOR: range-for is not supported by the front end; if a loop is written differently the rule has nothing to do (a
+        # range-for or `auto` the rules do not cover is caught by the leftover-auto guard / fails to compile: exit 2)
         Rule('R-RFOR-1', r'for \(auto next_char : argstring\)\n   \{',
-             'for (const char* cv_it = argstring.begin(); cv_it != argstring.end(); ++cv_it)\n   {  char next_char = *cv_it;', 1),
+             'for (const char* cv_it = argstring.begin(); cv_it != argstring.end(); ++cv_it)\n   {  char next_char = *cv_it;', (0, 1)),
         Rule('R-RFOR-2', r'for \(auto const& next_arg : arguments\)\n   \{',
-             'for (std::string* cv_it = arguments.begin(); cv_it != arguments.end(); ++cv_it)\n   {  const std::string& next_arg = *cv_it;', 1),
+             'for (std::string* cv_it = arguments.begin(); cv_it != arguments.end(); ++cv_it)\n   {  const std::string& next_arg = *cv_it;', (0, 1)),
         Rule('drop-unistd', r'#include <unistd.h>\n', '', 1),
     ], pre=pre)
 
@@ -91,8 +93,8 @@ void h_roundtrip() {
 
 // C04: construction and destruction of the argv array are memory-safe for every NUL-free string
 void h_ctor_name() {
-  std::string s; size_t n; __CPROVER_assume(n <= SLEN); s.mLen = n; for (size_t i = 0; i < CV_STR_CAP; ++i) { char c; __CPROVER_assume(c != 0); s.mData[i] = (i < n) ? c : 0; } s.mData[CV_STR_CAP] = 0;
-  bool with_name; size_t pl; __CPROVER_assume(pl <= 4); char* pn = new char[pl + 1]; for (size_t i = 0; i < 4; ++i) if (i < pl) { char c; __CPROVER_assume(c != 0); pn[i] = c; } pn[pl] = 0;
+  std::string s; size_t n; __CPROVER_assume(n <= SLEN); s.mLen = n; for (size_t i = 0; i < CV_STR_CAP; ++i) { char cvin_seq_c; __CPROVER_assume(cvin_seq_c != 0); s.mData[i] = (i < n) ? cvin_seq_c : 0; } s.mData[CV_STR_CAP] = 0;
+  bool with_name; size_t pl; __CPROVER_assume(pl <= 4); char* pn = new char[pl + 1]; for (size_t i = 0; i < 4; ++i) if (i < pl) { char cvin_seq_p; __CPROVER_assume(cvin_seq_p != 0); pn[i] = cvin_seq_p; } pn[pl] = 0;
   {
     ArgString2Array a( s, with_name ? pn : (const char*)0);
     __CPROVER_assert(a.mArgC >= 1 && a.mArgC <= (int)(SLEN / 2 + 2), "argc = 1 + number of words");
@@ -104,7 +106,7 @@ void h_ctor_name() {
   delete[] pn;
   CANARY; }
 void h_ctor_line() {
-  std::string s; size_t n; __CPROVER_assume(n <= SLEN); s.mLen = n; for (size_t i = 0; i < CV_STR_CAP; ++i) { char c; __CPROVER_assume(c != 0); s.mData[i] = (i < n) ? c : 0; } s.mData[CV_STR_CAP] = 0;
+  std::string s; size_t n; __CPROVER_assume(n <= SLEN); s.mLen = n; for (size_t i = 0; i < CV_STR_CAP; ++i) { char cvin_seq_c; __CPROVER_assume(cvin_seq_c != 0); s.mData[i] = (i < n) ? cvin_seq_c : 0; } s.mData[CV_STR_CAP] = 0;
   {
     ArgString2Array a( s);
     __CPROVER_assert(a.mArgC >= 0 && a.mArgC <= (int)(SLEN / 2 + 1), "argc = number of words");
